@@ -104,11 +104,16 @@ func VerifC05_ContainerMounts() {
 		return nil
 	})
 	roBind, rwProc := sym.Bool("bind_readonly"), sym.Bool("proc_writable")
+	// a hand-built bind entry (config loaders / WithMount): any flag word with MS_BIND
+	handFlags := uintptr(sym.U64("hand_flags"))
+	sym.Assume(handFlags&syscall.MS_BIND != 0)
+	sym.Assume(handFlags&^(syscall.MS_BIND|syscall.MS_RDONLY|syscall.MS_NOSUID|syscall.MS_NODEV|syscall.MS_NOEXEC|syscall.MS_PRIVATE|syscall.MS_REC|syscall.MS_NOATIME) == 0)
 	b := mount.NewBuilder().
 		WithBind("/data/src", "data/in", roBind).
 		WithBind("/missing", "gone", true).
 		WithTmpfs("w", "size=1m").
 		WithProcRW(rwProc).
+		WithMount(mount.Mount{Source: "/data/src2", Target: "hand", Flags: handFlags}).
 		FilterNotExist()
 	conf := containerConfig{ContainerRoot: "/newroot", Mounts: b.Mounts, WorkDir: "/w",
 		SymbolicLinks: []SymbolicLink{{LinkPath: "/dev/fd", Target: "/proc/self/fd"}}, MaskPaths: []string{"/proc/kcore"}}
@@ -117,8 +122,9 @@ func VerifC05_ContainerMounts() {
 	if err != nil {
 		return
 	}
-	sym.Assert(len(b.Mounts) == 3, "a bind mount whose source does not exist must be filtered out")
+	sym.Assert(len(b.Mounts) == 4, "a bind mount whose source does not exist must be filtered out")
 	c05Oracle(calls, "data/in", roBind, true, srcFlags)
+	c05Oracle(calls, "hand", handFlags&syscall.MS_RDONLY != 0, true, srcFlags)
 	c05Oracle(calls, "w", false, false, 0)
 	c05Oracle(calls, "proc", !rwProc, false, 0)
 	sym.Assert(len(calls) > 0 && calls[0].target == "/newroot" && calls[0].fstype == "tmpfs", "the new root must be a fresh tmpfs")
@@ -156,7 +162,7 @@ func VerifC05_ContainerMounts() {
 		sym.Reach("mask-absent")
 	}
 	for _, d := range mkdirs {
-		ok := d == "old_root" || d == "data" || d == "data/in" || d == "w" || d == "proc" || d == "file:data/in" || d == "/dev"
+		ok := d == "old_root" || d == "data" || d == "data/in" || d == "w" || d == "proc" || d == "file:data/in" || d == "/dev" || d == "hand"
 		sym.Assert(ok, "an unexpected object was created in the new root: "+d)
 	}
 }
